@@ -3287,8 +3287,17 @@ class BatchDataset(Dataset):
                 except IndexError:
                     if i == 0 or self.drop_last:
                         raise
-                    else:
-                        pass
+                    # Only the last batch may be incomplete. An IndexError
+                    # for an index that exists in the input dataset is not
+                    # the end of the input: it was raised while the example
+                    # was loaded (e.g. by a map function) and must not be
+                    # swallowed.
+                    try:
+                        exists = input_index + i < len(self.input_dataset)
+                    except Exception:
+                        exists = False
+                    if exists:
+                        raise
             return current_batch
         # elif isinstance(index, str):
         # ToDo: allow merge/collate keys -> allows __getitem__(str)
